@@ -63,4 +63,11 @@ CLAIMS["C07"] = proof(
     "Schedule half NOT proved: under true thread interleaving a notified waiter can consume its notification after two releases were absorbed by it and then acquire without passing anything on (candidate defect, not yet reproduced with loom); "
     "poll-granular histories cannot exhibit it. " + CORR, NOTE)
 
+CLAIMS["C05"] = proof(
+    "History half proved at full strength: C05_hist — for every history shorter than 2^61 operations (lock and lock_arc futures, each polled with any wakers, spuriously, in any order; every outcome of the starvation clock "
+    "through the oracle stream; cancellation at every point of a future's life incl. a starved and a notified-but-not-repolled waiter; completed futures kept alive; try_lock; guard drops) in every reachable state with no guard alive "
+    "and every woken task re-polled, no polled lock future is pending. From the generic event-ownership invariant (EventFacts.InvB) + path specifications of AcquireSlow::poll_with_strategy (MutexPaths, LockLive: "
+    "lock_poll_live / lock_drop_live, stated over any word/event so they are reused for the RwLock's inner mutex) + the word invariant (MutexInv). C05_idle_event: no future alive => lock_ops has no entry. "
+    "C05_no_error: no reachable poll takes an unreachable!() branch or exhausts loop fuel. Schedule half (threads, blocking waiters) not proved: poll-granular histories only; the blocking strategy is pinned by the ties. " + CORR, NOTE)
+
 NOT_APPLICABLE = []
